@@ -455,6 +455,34 @@ def stats_rules(prog, chk):
     C18f - copy constructor and assignment of the transform classes agree on every member (copyrule.py)."""
     import c05_skip
     c05_skip.guard_agreement_rule(prog, chk, "C18g", ("src/Stats/PCA.cpp", "src/Anamorphosis/AnamHermite.cpp", "src/Anamorphosis/AnamEmpirical.cpp"), 2)
+    # C18h: the two normalisations of a statistic (n / n-1 switch) divide the same sum by the same counter
+    files = ("src/Stats/PCA.cpp", "src/Anamorphosis/AnamHermite.cpp", "src/Anamorphosis/AnamEmpirical.cpp")
+
+    def strip(e):
+        while e is not None and e["k"] in ("Cast", "Paren") and e.get("c"):
+            e = e["c"][0]
+        return e
+
+    def divs(b):
+        return [(show(strip(z["c"][0])), {w["n"] for w in walk(z["c"][1]) if w["k"] in ("DeclRefExpr", "MemberExpr") and w.get("n")}, z)
+                for z in walk(b) if z["k"] == "BinOp" and z.get("op") == "/"]
+    nh = 0
+    for f in sorted(prog.funcs, key=lambda x: (x.file, x.line)):
+        if f.body is None or not any(s_ in f.file for s_ in files):
+            continue
+        for x in f.walk():
+            if x["k"] != "If" or x["c"][-1] is None or x["c"][-2] is None:
+                continue
+            a, b = divs(x["c"][-2]), divs(x["c"][-1])
+            if len(a) != 1 or len(b) != 1 or a[0][0] != b[0][0] or not a[0][1] or not b[0][1]:
+                continue
+            nh += 1
+            ok = a[0][1] == b[0][1]
+            chk.analysed(f)
+            chk.ob("C18h", "%s: both normalisations of `%s` use the same count" % (f.name, a[0][0][:40]), f.loc(a[0][2]), ok,
+                   detail=None if ok else "one branch divides by {%s}, the other by {%s}: with a selection or undefined values the two counts differ and the "
+                   "factors are no longer of unit variance" % (", ".join(sorted(a[0][1])), ", ".join(sorted(b[0][1]))), key="C18h|%s|%s" % (f.name, a[0][0][:30]))
+    chk.floor("C18h", nh, 1)
     import copyrule
     ncp = copyrule.copy_agreement(prog, chk, "C18f", classes=[c for c in prog.classes if c in ("PCA", "AnamHermite", "AnamEmpirical", "AnamContinuous", "Interval")])
     chk.floor("C18f", ncp, 3)
